@@ -659,6 +659,7 @@ RULES = [
     ("R-C20-type", 3, "no str method on a (key,value) tuple in convert.py", rule_type),
     ("R-C20-names", 2, "every listed old model name is looked up", rule_names),
     ("R-C20-table", 300, "each table row ends in a parameter of the target model under the source's stage order", rule_table),
+    ("R-C20-sld-chain", 50, "names rescaled as SLDs in the 3.x pass are SLDs of the current model even when a later table renames them", _x3.rule_c20_sld_chain),
     ("R-C20-rows", 60, "every confirmed (new -> legacy) pair of the conversion table is still there", _x3.rule_c20_rows),
     ("R-C20-defaults", 2, "defaulted keys exist in every target model", rule_defaults),
     ("R-C20-stage", 2, "dot/underscore typestate across the version loop", rule_stage),
